@@ -2,7 +2,7 @@
    paths of the owning iterators are Layer B). *)
 Require Import LruV.A.LedgerA.
 Require Import LruV.A.MonitorsSound LruV.A.MonitorsA LruV.A.PanicProps.
-Require Import LruV.A.InvA LruV.B.StepB LruV.B.RefineB LruV.B.ReachB.
+Require Import LruV.A.InvA LruV.B.StepB LruV.B.RefineB LruV.B.ReachB LruV.B.CloneB.
 
 (* one step, any operation, any state, any oracle: the multiset of tokens held before plus those the
    operation brings in equals the multiset held after plus dropped plus handed back (plus what a
@@ -68,8 +68,41 @@ Proof.
   split; [exact HRI|]. exact (C06_step E VS HE HV _ p _ _ out evs HI Hwf HA).
 Qed.
 
+(* FROM CREATION TO DROP, AT POINTER LEVEL: a cache built by new / with_capacity as a heap of nodes, driven by any sequence of
+   pointer-level operations of any length (any oracle), then dropped by walking its buckets (`bB_drop`): every object that ever
+   entered is in exactly one of dropped / handed back / leaked, exactly once, and nothing is leaked unless a drain was forgotten *)
+Inductive RunBL (E VS : N) : bstate -> list (op * oracleB) -> bstate -> list N -> list N -> list N -> list N -> Prop :=
+| RunBL_nil b : RunBL E VS b [] b [] [] [] []
+| RunBL_cons b p oB b1 out evs l b' I D R L :
+    wf_op E (absB b) p -> stepB E VS b p oB = Some (b1, out, evs) -> RunBL E VS b1 l b' I D R L ->
+    RunBL E VS b ((p, oB) :: l) b' (op_toks p ++ I) (e_dropped evs ++ D) (returned p out ++ R) (leaked (absB b) p ++ L).
+
+Lemma runBL_run E VS : 0 < E -> VS <= E -> forall b l b' I D R L, ReachB E VS b -> RunBL E VS b l b' I D R L ->
+  Run E VS (absB b) (map (fun x => (fst x, ob (snd x))) l) (absB b') I D R L /\ ReachB E VS b'.
+Proof.
+  intros HE HV b l b' I D R L HR Hrun. induction Hrun as [b|b p oB b1 out evs l b' I D R L Hwf Hstep Hrun IH]; [split; [constructor|exact HR]|].
+  destruct (reachB_step E VS HE HV b p oB b1 out evs HR Hstep) as (HA & _ & _).
+  assert (HR1 : ReachB E VS b1) by (change b1 with (fst (fst (b1, out, evs))); eapply reachb_step; eauto).
+  destruct (IH HR1) as [IH1 IH2]. split; [|exact IH2]. cbn [map fst snd]. econstructor; eauto.
+Qed.
+
+Theorem C06_exactly_once_pointer_level : forall E VS, 0 < E -> VS <= E -> forall seal mx cap b0 l b' I D R L,
+  mx < W -> new_b E seal mx cap = Some b0 -> RunBL E VS b0 l b' I D R L -> NoDup I ->
+  let D' := D ++ e_dropped (bB_drop b') in
+  Permutation I (D' ++ R ++ L) /\ NoDup (D' ++ R ++ L) /\
+  (forall t, In t I -> In t D' \/ In t R \/ In t L) /\
+  (forall t, In t D' -> ~ In t R /\ ~ In t L).
+Proof.
+  intros E VS HE HV seal mx cap b0 l b' I D R L Hmx Hnew Hrun Hnd.
+  assert (HR0 : ReachB E VS b0) by (eapply reachb_new; eauto).
+  destruct (runBL_run E VS HE HV b0 l b' I D R L HR0 Hrun) as [HRun _].
+  destruct (new_b_RI E seal mx cap b0 Hnew) as [_ Hnew'].
+  rewrite (drop_refines b'). exact (exactly_once E VS HE HV mx cap (absB b0) _ (absB b') I D R L Hmx Hnew' HRun Hnd).
+Qed.
+
 Print Assumptions C06_step.
 Print Assumptions C06_exactly_once.
 Print Assumptions C06_no_leak_without_forget.
 Print Assumptions C06_monitor_sound.
 Print Assumptions C06_pointer_level.
+Print Assumptions C06_exactly_once_pointer_level.
